@@ -349,9 +349,11 @@ where
             outgoing_batch.push(next_msg);
           }
 
-          // Then, if there is still room, top up from the core_pipe_manager
+          // Then, if there is still room, top up from the core_pipe_manager - but only once the
+          // carry-over is fully drained: everything still in it is older than anything in the pipe,
+          // and messages pulled now would be framed ahead of it.
           let start_len = outgoing_batch.len();
-          if start_len < max_count && total_bytes < logical_max_bytes {
+          if core_carryover.is_empty() && start_len < max_count && total_bytes < logical_max_bytes {
             // Dynamically calculate actual remaining slots based on the average size of current messages
             let avg_size = if start_len > 0 {
               total_bytes / start_len
